@@ -437,6 +437,17 @@ func newPatchRunner(fset *token.FileSet, patches []*engine.Program) *patchRunner
 }
 
 func (r *patchRunner) Apply(filename string, f *ast.File) (fout *ast.File, comments []string, matched bool) {
+	// Code generated from an ill-typed patch can be malformed in ways that
+	// go/ast and our own post-processing do not expect (for example an
+	// assignment whose right side was elided to nothing) and make them
+	// panic. Report that for this file instead of crashing the whole run.
+	defer func() {
+		if rec := recover(); rec != nil {
+			r.errors = append(r.errors, fmt.Errorf("could not update %q: %v", filename, rec))
+			fout, matched = nil, false
+		}
+	}()
+
 	snap := astdiff.Before(f, ast.NewCommentMap(r.fset, f, f.Comments))
 
 	for _, prog := range r.patches {
